@@ -616,6 +616,10 @@ class Subscription(BaseSubscription):
                     subwhere.append(
                         f"id IN (SELECT id FROM tags WHERE name = '{tagname}' AND value IN ({pstr})) "
                     )
+                else:
+                    # a tag condition without a usable value matches nothing,
+                    # like an empty ids / authors / kinds list
+                    raise ValueError("tags")
         return filter_obj
 
     def build_query(self, filters):
